@@ -101,6 +101,11 @@ pub open spec fn move_wf(v: Pos, m: Move) -> bool {
             &&& (all_occ(me) | all_occ(op)) & (if dst > src { sqm((src + 1) as u32) | sqm((src + 2) as u32) }
                                                else { sqm((src - 1) as u32) | sqm((src - 2) as u32) | sqm((src - 3) as u32) }) == 0
         })
+    // a two-square pawn step starts on the pawn's home rank and passes over an empty square onto an empty square
+    &&& (piece == 1 && (dst == src + 16 || src == dst + 16) ==> {
+            &&& (if white { 48 <= src < 56 && src == dst + 16 } else { 8 <= src < 16 && dst == src + 16 })
+            &&& (all_occ(me) | all_occ(op)) & (sqm(dst) | sqm(((src + dst) / 2) as u32)) == 0
+        })
     &&& (f_en_passant_attack(b) != 0) == is_ep_rule(v, piece, src, dst)
     &&& f_piece_attacked(b) == captured
     &&& (f_halfmove_reset(b) != 0) == (piece == 1 || captured != 0)
@@ -112,4 +117,8 @@ pub open spec fn move_wf(v: Pos, m: Move) -> bool {
     &&& f_previous_halfmove(b) == v.half
     &&& f_previous_en_passant_square(b) == v.ep
     &&& f_side_to_move(b) == v.turn
+}
+/// the move does not capture a king (true for every pseudo-legal move of a legal position: the side not to move is not in check)
+pub open spec fn no_king_capture(v: Pos, m: Move) -> bool {
+    f_piece_attacked(m.bits) != 6
 }
